@@ -560,7 +560,9 @@ def clause_d(ctx, P, A, sc):
 
 
 def run(ctx, P):
-    A, sc = clause_a(ctx, P)
+    R = P      # (P.raw is the program as extracted; the numeric engine also runs on the normalised one)
+    R.repo = P.repo
+    A, sc = clause_a(ctx, R)
     side_conditions(ctx, P)
     clause_b(ctx, P)
-    clause_d(ctx, P, A, sc)
+    clause_d(ctx, R, A, sc)
